@@ -115,10 +115,21 @@ Inductive cname := NoName | Plain (i:ident) | Conv (s:str). (* None | str | sqla
 Inductive tymod := TySa | TyDialect (d:str).                (* type(type_).__module__: sqlalchemy.* / sqlalchemy.dialects.<d> *)
 Record tytok := mkTy { ty_mod : tymod; ty_path : list str; ty_args : list pyexpr }.   (* repr(type_) as a call tree: opaque *)
 
+(* integers as written: sign and decimal digits *)
+Definition pint := (bool * str)%type.
+(* sqla_compat._get_identity_options_dict: always is always there, the others when not None, in this order *)
+Record identity := mkIdn { id_always : option bool; id_on_null : option bool; id_start : option pint; id_increment : option pint;
+                           id_minvalue : option pint; id_maxvalue : option pint; id_nominvalue : option bool;
+                           id_nomaxvalue : option bool; id_cycle : option bool; id_cache : option pint; id_order : option bool }.
+(* the dialect options of an index that are modelled: postgresql_using, postgresql_where (its rendered SQL), postgresql_concurrently *)
+Record ixkw := mkIxKw { k_using : option str; k_where : option str; k_conc : option bool }.
+
 Inductive sdefault :=
 | SdStr (s:str)                               (* DefaultClause(str) or a plain str *)
 | SdText (s:str)                              (* DefaultClause(ClauseElement): s = render_ddl_sql_expr text (opaque) *)
-| SdComputed (s:str) (persisted:option bool). (* Computed(sqltext, persisted=) *)
+| SdComputed (s:str) (persisted:option bool)  (* Computed(sqltext, persisted=) *)
+| SdIdentity (i:identity)                     (* Identity(always=, on_null=, start=, ...) *)
+| SdFetched.                                  (* a plain FetchedValue() (exactly that class) *)
 
 Record column := mkCol { c_name : ident; c_type : tytok; c_default : option sdefault; c_autoinc : option bool;
                          c_nullable : bool; c_system : bool; c_comment : option str }.
@@ -154,8 +165,8 @@ Inductive tbl_op :=
 | OAddColumn (c : column)
 | ODropColumn (c : ident)
 | OAlterColumn (a : altercol)
-| OCreateIndex (name : cname) (exprs : list ixexpr) (unique : option bool) (if_not_exists : option bool)
-| ODropIndex (name : cname) (if_exists : option bool) (name_stable : bool)
+| OCreateIndex (name : cname) (exprs : list ixexpr) (unique : option bool) (if_not_exists : option bool) (kw : ixkw)
+| ODropIndex (name : cname) (if_exists : option bool) (name_stable : bool) (kw : ixkw)
       (* name_stable: replacing the expressions the operation object remembers (its _reverse) by the dummy column that
          DropIndexOp.to_index uses when it remembers none does not change the name the naming convention in force gives
          the index.  False only for an index without any table-bound column under a convention with a
@@ -168,6 +179,8 @@ Inductive tbl_op :=
 
 Inductive top_op :=
 | TCreateTable (t : table)
+| TOpaque                                                            (* an operation outside the modelled universe: no statement *)
+| TExecute (sql : str)                                               (* ExecuteSQLOp with a plain SQL string *)
 | TDropTable (name : ident) (schema : option ident) (if_exists : option bool) (schema_types : bool)
       (* schema_types: the operation object carries columns whose types have DDL of their own on some dialect
          (a native Enum: DROP TYPE on PostgreSQL); the renderer never looks at the columns *)
@@ -226,14 +239,30 @@ Definition or_none {A} (f:A -> pyexpr) (x:option A) : pyexpr := match x with Som
 Definition tri_v {A} (f:A -> pyexpr) (t:tri A) : option pyexpr :=
   match t with Keep => None | SetNone => Some PNone | SetTo a => Some (f a) end.
 
+Definition opt_n (x:option pint) : option pyexpr := option_map (fun p => PInt (fst p) (snd p)) x.
+(* _render_dialect_kwargs_items for the modelled index options: _render_potential_expr of each value *)
+Definition ixkw_items (c:cfg) (k:ixkw) : list (string * option pyexpr) :=
+  [("postgresql_using"%string, opt_s (k_using k));
+   ("postgresql_where"%string, option_map (fun s => PCall [cfg_sa c; lit "text"] [Sr s]) (k_where k));
+   ("postgresql_concurrently"%string, opt_b (k_conc k))].
+
 (* _render_server_default *)
 Definition render_server_default (c:cfg) (d:sdefault) : pyexpr :=
   match d with
   | SdStr s => Sr (strip_quotes s)
   | SdText s => PCall [cfg_sa c; lit "text"] [Sr s]
   | SdComputed s p => PCall [cfg_sa c; lit "Computed"] (Sr s :: kwlist [("persisted"%string, opt_b p)])
+  | SdIdentity i =>                                  (* _render_identity *)
+      PCall [cfg_sa c; lit "Identity"]
+        (kwlist [("always"%string, Some (or_none PBool (id_always i))); ("on_null"%string, opt_b (id_on_null i));
+                 ("start"%string, opt_n (id_start i)); ("increment"%string, opt_n (id_increment i));
+                 ("minvalue"%string, opt_n (id_minvalue i)); ("maxvalue"%string, opt_n (id_maxvalue i));
+                 ("nominvalue"%string, opt_b (id_nominvalue i)); ("nomaxvalue"%string, opt_b (id_nomaxvalue i));
+                 ("cycle"%string, opt_b (id_cycle i)); ("cache"%string, opt_n (id_cache i)); ("order"%string, opt_b (id_order i))])
+  | SdFetched => PCall [cfg_sa c; lit "FetchedValue"] []
   end.
-Definition positional_default (d:sdefault) : bool := match d with SdComputed _ _ => true | _ => false end.
+(* _should_render_server_default_positionally *)
+Definition positional_default (d:sdefault) : bool := match d with SdComputed _ _ | SdIdentity _ => true | _ => false end.
 Definition pos_default (c:cfg) (d:option sdefault) : list pyexpr :=
   match d with Some d => if positional_default d then [render_server_default c d] else [] | None => [] end.
 Definition kw_default (c:cfg) (d:option sdefault) : option pyexpr :=
@@ -314,14 +343,15 @@ Definition render_tbl_op (c:cfg) (hb:bool) (tn:ident) (schema:option ident) (o:t
                        | Keep => option_map (render_server_default c) (a_existing_server_default a)
                        | _ => None end);
                     ("schema"%string, sch)])
-  | OCreateIndex n exprs unique ine =>
+  | OCreateIndex n exprs unique ine k =>
       PCall [p; lit "create_index"]
         (([rname c hb n] ++ tbl ++ [PList (map (render_ixexpr c) exprs)])
-         ++ kwlist [("unique"%string, Some (PBool (match unique with Some b => b | None => false end)));
-                    ("schema"%string, sch); ("if_not_exists"%string, opt_b ine)])
-  | ODropIndex n ie _ =>
+         ++ kwlist ([("unique"%string, Some (PBool (match unique with Some b => b | None => false end))); ("schema"%string, sch)]
+                    ++ ixkw_items c k ++ [("if_not_exists"%string, opt_b ine)]))
+  | ODropIndex n ie _ k =>
       PCall [p; lit "drop_index"]
-        ([rname c hb n] ++ kwlist [("table_name"%string, if hb then None else Some (id_ tn)); ("schema"%string, sch); ("if_exists"%string, opt_b ie)])
+        ([rname c hb n] ++ kwlist ([("table_name"%string, if hb then None else Some (id_ tn)); ("schema"%string, sch)]
+                                   ++ ixkw_items c k ++ [("if_exists"%string, opt_b ie)]))
   | OCreateUnique n cols deferrable initially =>
       PCall [p; lit "create_unique_constraint"]
         (([rname c hb n] ++ tbl ++ [PList (map id_ cols)])
@@ -349,6 +379,8 @@ Definition render_tbl_op (c:cfg) (hb:bool) (tn:ident) (schema:option ident) (o:t
 Definition render_top (c:cfg) (o:top_op) : list pystmt :=
   match o with
   | TCreateTable t => [SExpr (render_create_table c t)]
+  | TOpaque => []
+  | TExecute sql => [SExpr (PCall [cfg_op c; lit "execute"] [Sr sql])]      (* _execute_sql: _alembic_autogenerate_prefix *)
   | TDropTable n s ie _ => [SExpr (render_drop_table c n s ie)]
   | TOp tn s o => [SExpr (render_tbl_op c false tn s o)]
   | TModify tn s ops =>
@@ -419,17 +451,40 @@ Definition as_type (c:cfg) (e:pyexpr) : option tytok :=
   | PCall (m :: path) args => Some (mkTy (if str_eqb m (cfg_sa c) then TySa else TyDialect m) path args)
   | _ => None
   end.
+Definition as_int (e:pyexpr) : option pint := match e with PInt n d => Some (n, d) | _ => None end.
+(* the keyword arguments of sa.Identity *)
+Definition as_identity (args:list pyexpr) : option identity :=
+  a <- opt_arg as_bool (kwarg "always" args) ;; o <- opt_arg as_bool (kwarg "on_null" args) ;;
+  st <- opt_arg as_int (kwarg "start" args) ;; inc <- opt_arg as_int (kwarg "increment" args) ;;
+  mn <- opt_arg as_int (kwarg "minvalue" args) ;; mx <- opt_arg as_int (kwarg "maxvalue" args) ;;
+  nmn <- opt_arg as_bool (kwarg "nominvalue" args) ;; nmx <- opt_arg as_bool (kwarg "nomaxvalue" args) ;;
+  cy <- opt_arg as_bool (kwarg "cycle" args) ;; ca <- opt_arg as_int (kwarg "cache" args) ;; od <- opt_arg as_bool (kwarg "order" args) ;;
+  Some (mkIdn a o st inc mn mx nmn nmx cy ca od).
 Definition as_default (c:cfg) (e:pyexpr) : option sdefault :=
   match e with
   | PStr _ s => Some (SdStr s)
-  | PCall [m; f] (PStr _ s :: rest) =>
+  | PCall [m; f] args =>
       if negb (str_eqb m (cfg_sa c)) then None
-      else if str_eqb f (lit "text") then (match rest with [] => Some (SdText s) | _ => None end)
-      else if str_eqb f (lit "Computed") then
-        p <- opt_arg as_bool (kwarg "persisted" rest) ;; Some (SdComputed s p)
-      else None
+      else if str_eqb f (lit "Identity") then option_map SdIdentity (as_identity args)
+      else if str_eqb f (lit "FetchedValue") then (match args with [] => Some SdFetched | _ => None end)
+      else match args with
+           | PStr _ s :: rest =>
+               if str_eqb f (lit "text") then (match rest with [] => Some (SdText s) | _ => None end)
+               else if str_eqb f (lit "Computed") then
+                 p <- opt_arg as_bool (kwarg "persisted" rest) ;; Some (SdComputed s p)
+               else None
+           | _ => None
+           end
   | _ => None
   end.
+Definition as_sqltext (c:cfg) (e:pyexpr) : option str :=
+  match e with
+  | PCall [m; f] [PStr _ s] => if str_eqb m (cfg_sa c) && str_eqb f (lit "text") then Some s else None
+  | _ => None
+  end.
+Definition as_ixkw (c:cfg) (args:list pyexpr) : option ixkw :=
+  u <- opt_arg as_str (kwarg "postgresql_using" args) ;; w <- opt_arg (as_sqltext c) (kwarg "postgresql_where" args) ;;
+  k <- opt_arg as_bool (kwarg "postgresql_concurrently" args) ;; Some (mkIxKw u w k).
 
 Definition sa_call (c:cfg) (e:pyexpr) : option (str * list pyexpr) :=
   match e with
@@ -445,7 +500,7 @@ Definition eval_column (c:cfg) (e:pyexpr) : option column :=
   name <- obind (nth_pos 0 args) as_ident ;;
   ty <- obind (nth_pos 1 args) (as_type c) ;;
   dflt <- (match nth_pos 2 args with
-           | Some e3 => (match as_default c e3 with Some (SdComputed s p) => Some (Some (SdComputed s p)) | _ => None end)
+           | Some e3 => (match as_default c e3 with Some d => if positional_default d then Some (Some d) else None | None => None end)
            | None => opt_arg (as_default c) (kwarg "server_default" args)
            end) ;;
   ai <- opt_arg as_bool (kwarg "autoincrement" args) ;;
@@ -531,12 +586,14 @@ Definition eval_tbl_op (c:cfg) (hb:bool) (btn:ident) (bschema:option ident) (f:s
     ex <- obind (arg (S k) "columns" args) (as_list (as_ixexpr c)) ;; s <- schema_of args ;;
     u <- (match kwarg "unique" args with None => Some false | Some e => as_bool e end) ;;
     ine <- opt_arg as_bool (kwarg "if_not_exists" args) ;;
-    Some (tn, s, OCreateIndex n ex (Some u) ine)
+    k <- as_ixkw c args ;;
+    Some (tn, s, OCreateIndex n ex (Some u) ine k)
   else if str_eqb f (lit "drop_index") then
     n <- obind (nth_pos 0 args) (as_cname c) ;;
     tn <- (if hb then Some btn else obind (arg 1 "table_name" args) as_ident) ;;
     s <- schema_of args ;; ie <- opt_arg as_bool (kwarg "if_exists" args) ;;
-    Some (tn, s, ODropIndex n ie true)
+    k <- as_ixkw c args ;;
+    Some (tn, s, ODropIndex n ie true k)
   else if str_eqb f (lit "create_unique_constraint") then
     n <- obind (nth_pos 0 args) (as_cname c) ;;
     tn <- (if hb then Some btn else obind (arg 1 "table_name" args) as_ident) ;;
@@ -580,6 +637,7 @@ Definition eval_stmt (c:cfg) (s:pystmt) : option top_op :=
       else if str_eqb f (lit "drop_table") then
         n <- obind (nth_pos 0 args) as_ident ;; s <- opt_arg as_ident (kwarg "schema" args) ;;
         ie <- opt_arg as_bool (kwarg "if_exists" args) ;; Some (TDropTable n s ie false)
+      else if str_eqb f (lit "execute") then s <- obind (nth_pos 0 args) as_str ;; Some (TExecute s)
       else r <- eval_tbl_op c false dummy_id None f args ;; Some (TOp (fst (fst r)) (snd (fst r)) (snd r))
   | SWith (PCall [p; f] args) body =>
       if negb (str_eqb p (cfg_op c) && str_eqb f (lit "batch_alter_table")) then None else
